@@ -1077,6 +1077,13 @@ func Subst(e *Expr, params map[string]*Expr) *Expr {
 		}
 		return e
 	}
+	if e.Op == "free" {
+		// a captured variable of a closure, when the closure's creation site is known (calleeEnv)
+		if r, ok := params["free:"+e.Name]; ok {
+			return r
+		}
+		return e
+	}
 	if len(e.Args) == 0 {
 		return e
 	}
